@@ -98,9 +98,14 @@ func c04Oracle(sc *h1.Scenario, o *h1.Obs) []Finding {
 	var fs []Finding
 	opt := sc.Opt
 	size := map[uint64][2]int64{}
-	for _, t := range sc.Targets {
-		if t.Explore != nil {
-			size[t.Hash] = [2]int64{t.Explore.Series, t.Explore.Total}
+	resetSizes := func() {
+		for k := range size {
+			delete(size, k)
+		}
+		for _, t := range sc.Targets {
+			if t.Explore != nil {
+				size[t.Hash] = [2]int64{t.Explore.Series, t.Explore.Total}
+			}
 		}
 	}
 	oversized := func(sz [2]int64) bool {
@@ -116,7 +121,8 @@ func c04Oracle(sc *h1.Scenario, o *h1.Obs) []Finding {
 			if rep.Absent || rep.ShardsErr {
 				continue
 			}
-			// sizes as reported by shards take precedence over the estimate
+			// sizes as reported by shards of this replica take precedence over the estimate
+			resetSizes()
 			for si := range rep.Shards {
 				if rep.Shards[si].Reachable() {
 					for h, st := range rep.Shards[si].Status {
